@@ -864,11 +864,13 @@ class FileSet:
         gc.collect()
 
         # We do not want to have any None as data
-        files, data = zip(*[
+        results = [
             [info, content]
             for info, content in results
             if content is not None
-        ])
+        ]
+        # (zip(*[]) cannot be unpacked: nothing to collect is a valid outcome)
+        files, data = zip(*results) if results else ([], [])
 
         if return_info:
             return list(files), list(data)
